@@ -41,10 +41,11 @@ MalformedBodies == {"oversized", "nonjson", "nonutf8", "nonobject", "missing_key
 Bodies == UsableBodies \cup JwsBodies \cup MalformedBodies
 
 (* resolver behaviour.  ttl_* : returns an identity whose ttl_seconds is 300 / 1 / 2^63.. / 0.5 /
-                                0 / -1 / -0.0 / NaN / +inf / -inf
+                                0 / -1 / -0.0 / NaN / +inf / -inf / True / "300" / None
                         none, unavailable (AuthUnavailableError), exception (anything else)       *)
 GoodTtl == {"ttl_pos", "ttl_one", "ttl_huge", "ttl_frac"}
-BadTtl  == {"ttl_zero", "ttl_neg", "ttl_negzero", "ttl_nan", "ttl_inf", "ttl_neginf"}
+BadTtl  == {"ttl_zero", "ttl_neg", "ttl_negzero", "ttl_nan", "ttl_inf", "ttl_neginf",
+            "ttl_bool", "ttl_str", "ttl_none"}     \* not numbers at all: True / "300" / None  (JSON true, string, null)
 Resolvers == GoodTtl \cup BadTtl \cup {"none", "unavailable", "exception"}
 
 Cases == {[mode |-> "enabled", caller |-> ca, body |-> b, res |-> r] : ca \in Callers, b \in Bodies, r \in Resolvers}
